@@ -470,7 +470,7 @@ theorem meetPartFields_ok {rec : Table → Nat → Nat → TRes} (hrec : RecMeet
             · exact (h1 _ (by simp)).sub hsub2 (hf1 _ (by simp))
             · exact hkeepfs qs hld hwf (fun pf hpf => h1 pf (by simp [hpf])) h2 pf hpf
 
-/-- the partial-vs-partial arm (notes/C02-fixes/15) never drops a well-labelled value of both operands -/
+/-- the partial-vs-partial arm (fix 02d463a) never drops a well-labelled value of both operands -/
 theorem meetPart_ok {rec : Table → Nat → Nat → TRes} (hrec : RecMeet rec) {T : Table}
     {a b never : Nat} {n1 n2 : Option Name} {fs1 fs2 : List (Name × Nat)} (ha : FO T a) (hb : FO T b)
     (hta : T.types[a]? = some (.part n1 fs1)) (htb : T.types[b]? = some (.part n2 fs2))
@@ -562,10 +562,10 @@ theorem intersectPair_ok (vr : Variant) (rf : Nat) {rec : Table → Nat → Nat 
       | exact MeetOk.keep_left ha0
       | exact meetTuple_ok vr hrec ha0 hb0 hta htb hnever hneverfo
       | exact meetFallback_ok rf ha0 hb0 hneverfo
-      | (show MeetOk _ a b (if vr.partialIntersectExact = true then _ else _)
+      | (show MeetOk _ a b (if vr.partialIntersectKeepsLeft = true then _ else _)
          split
-         · exact meetPart_ok hrec ha0 hb0 hta htb hnever hneverfo
-         · exact meetFallback_ok rf ha0 hb0 hneverfo)
+         · exact meetFallback_ok rf ha0 hb0 hneverfo
+         · exact meetPart_ok hrec ha0 hb0 hta htb hnever hneverfo)
 
 /-! ### the loops of `intersect_types` -/
 
